@@ -56,26 +56,44 @@ def calls_of(fn):
 # =====================================================================================================
 
 CURATED = {
-    # class (template name): members whose instantiability the property needs ("*" = every member the driver instantiates)
-    "FEAT::Global::SynchVectorTicket": "*", "FEAT::Global::SynchScalarTicket": "*", "FEAT::Global::SynchMatrix": "*",
-    "FEAT::Global::Gate": "*", "FEAT::Global::Muxer": "*", "FEAT::Global::Splitter": "*",
-    "FEAT::Global::Vector": "*", "FEAT::Global::Matrix": "*", "FEAT::Global::Filter": "*", "FEAT::Global::Transfer": "*",
-    "FEAT::LAFEM::VectorMirror": "*", "FEAT::LAFEM::MatrixMirror": "*",
+    # class template -> the members the property statement needs (synchronisation, reductions, distributed products, transfer,
+    # mirror packing).  Every entry is one E0 instance whether or not it type-checks, so the count does not depend on defects.
+    "FEAT::Global::SynchVectorTicket": ["SynchVectorTicket", "SynchVectorTicket/move", "operator=/move", "wait", "~SynchVectorTicket"],
+    "FEAT::Global::SynchScalarTicket": ["SynchScalarTicket", "SynchScalarTicket/move", "operator=/move", "wait", "~SynchScalarTicket", "_wait_function"],
+    "FEAT::Global::SynchMatrix": ["SynchMatrix", "init", "exec"],
+    "FEAT::Global::Gate": ["push", "compile", "from_1_to_0", "sync_0", "sync_0_async", "sync_1", "sync_1_async", "dot", "dot_async", "sum", "sum_async",
+                           "min", "min_async", "max", "max_async", "norm2", "norm2_async"],
+    "FEAT::Global::Muxer": ["compile", "join_send", "join", "split_recv", "split"],
+    "FEAT::Global::Splitter": ["compile", "join", "split"],
+    "FEAT::Global::Vector": ["from_1_to_0", "sync_0", "sync_0_async", "sync_1", "sync_1_async", "dot", "dot_async", "norm2sqr", "norm2sqr_async", "norm2", "norm2_async",
+                             "max_abs_element", "max_abs_element_async", "min_abs_element", "min_abs_element_async", "max_element", "max_element_async",
+                             "min_element", "min_element_async"],
+    "FEAT::Global::Matrix": ["apply", "apply_transposed", "apply_async", "apply_transposed_async", "lump_rows", "convert_to_1", "extract_diag"],
+    "FEAT::Global::Filter": ["filter_rhs", "filter_sol", "filter_def", "filter_cor"],
+    "FEAT::Global::Transfer": ["trunc", "trunc_send", "rest", "rest_send", "prol", "prol_recv"],
+    "FEAT::LAFEM::VectorMirror": ["buffer_size", "create_buffer", "gather", "scatter_axpy"],
+    "FEAT::LAFEM::MatrixMirror": ["create_buffer", "gather", "scatter_axpy"],
 }
+
+
+def member_key(qn_stripped, is_move):
+    return qn_stripped.replace("FEAT::", "") + ("/move" if is_move else "")
 
 
 def check_e0(ck, facts, label):
     errs = facts.errors_in_repo()
     for e in facts.errors_outside_repo():
         ck.incomplete("E0.instantiate-mpi", "driver tu/c13_global_mpi.cpp no longer matches the API: %s:%s %s" % (e["file"], e["line"], e["msg"]))
-    by_fn = {}
+    by_member = {}
     for e in errs:
         owner = None
         for fn in facts.functions:
             if fn.file == e["file"] and fn.line <= e["line"] <= max(fn.end, fn.line):
                 if owner is None or fn.line >= owner.line:
                     owner = fn
-        if owner is None:
+        if owner is not None:
+            k = member_key(strip_targs(owner.qn), fkey(owner).endswith("/move"))
+        else:
             # functions whose body is invalid are not dumped: take the member from the instantiation stack of the diagnostic
             m = None
             for nt in e.get("notes", []):
@@ -85,30 +103,30 @@ def check_e0(ck, facts, label):
             if m is None:
                 ck.incomplete("E0.instantiate-mpi", "front-end error outside any dumped function: %s:%d %s" % (rel(e["file"]), e["line"], e["msg"]))
                 continue
-            by_fn.setdefault((strip_targs(m.group(1)), "", e["file"], e["line"]), []).append(e)
-            continue
-        by_fn.setdefault((strip_targs(owner.qn), fkey(owner).split("::", 0)[0], owner.file, owner.line), []).append(e)
-    bad_classes = set()
-    seen = set()
-    for (qn, key, file, line), es in sorted(by_fn.items()):
-        cls = qn.rsplit("::", 1)[0]
-        k2 = re.sub(r"<.*>(?=::[^:]*$)", "", key)       # class template arguments do not matter for a front-end error in the pattern
-        k2 = strip_targs(qn).replace("FEAT::", "") + ("/move" if key.endswith("/move") else "")
-        bad_classes.add(cls)
-        if k2 in seen:
-            continue
-        seen.add(k2)
-        if cls not in CURATED:
-            ck.note("E0: front-end errors in %s (not on the curated list): %s" % (k2, es[0]["msg"]))
-            continue
-        ck.ob("E0.instantiate-mpi", k2, False,
-              "%d front-end error(s) when the member is instantiated with -DFEAT_HAVE_MPI, first: %s:%d: %s" % (len(es), rel(file), es[0]["line"], es[0]["msg"]),
-              file, es[0]["line"])
-    classes = sorted({fn.cls for fn in facts.functions if strip_targs(fn.cls) in CURATED and fn.tk != "pattern"})
-    for cls in classes:
-        n = len([fn for fn in facts.functions if fn.cls == cls and fn.tk != "pattern"])
-        ck.ob("E0.instantiate-mpi", "%s[%s]" % (ckey(cls), label), True, "%d member functions instantiated with MPI on%s" % (
-            n, " (members with errors are reported separately)" if strip_targs(cls) in bad_classes else ""), None, None, trivial=strip_targs(cls) in bad_classes)
+            k = member_key(strip_targs(m.group(1)), False)
+        by_member.setdefault(k, []).append(e)
+    present = {}
+    for fn in facts.functions:
+        if fn.tk != "pattern" and strip_targs(fn.cls) in CURATED:
+            present.setdefault(member_key(strip_targs(fn.qn), fkey(fn).endswith("/move")), []).append(fn)
+    curated_keys = set()
+    for cls, members in CURATED.items():
+        for mname in members:
+            k = "%s::%s" % (cls.replace("FEAT::", ""), mname)
+            curated_keys.add(k)
+            es = by_member.get(k, [])
+            fns = present.get(k, [])
+            if es:
+                ck.ob("E0.instantiate-mpi", k, False,
+                      "%d front-end error(s) when the member is instantiated with -DFEAT_HAVE_MPI (%s), first: %s:%d: %s" % (len(es), label, rel(es[0]["file"]), es[0]["line"], es[0]["msg"]),
+                      es[0]["file"], es[0]["line"])
+            elif fns:
+                ck.ob("E0.instantiate-mpi", k, True, "%d instantiation(s) type-check with MPI on (%s)" % (len(fns), label), fns[0].file, fns[0].line)
+            else:
+                ck.incomplete("E0.instantiate-mpi", "%s is neither instantiated by the driver nor diagnosed (member vanished or renamed?)" % k)
+    for k, es in sorted(by_member.items()):
+        if k not in curated_keys:
+            ck.note("E0: front-end errors in %s (not on the curated member list): %s:%d %s" % (k, rel(es[0]["file"]), es[0]["line"], es[0]["msg"]))
 
 
 # =====================================================================================================
@@ -339,6 +357,44 @@ def check_requests(ck, facts):
                   "a path returns from wait() without setting %s" % flag, w.file, w.line)
             # the flag is set only after completion: state at the assignment must be idle (checked through the exit states:
             # nothing re-posts after it) -> covered by the typestate above
+        # ---- move operations: requests travel together with their buffers, the source is marked finished ----------
+        ctor_sites = [(c, h, bufs, rs_) for fn_, rs_, par_, sites_ in posting if fn_.d.get("ctor") for c, h, how, slot, bufs in sites_]
+        req_fields = sorted({h.steps[1][1] for c, h, bufs, rs_ in ctor_sites if h is not None and len(h.steps) > 1 and h.steps[0] == ("this",)})
+        buf_fields = sorted({br[1] for c, h, bufs, rs_ in ctor_sites for a, pn in bufs for br in [buffer_root(rs_, a)] if br is not None and br[0] == "field" and not br[2]})
+        for f in fns:
+            if not ((f.d.get("ctor") or f.name == "operator=") and len(f.params) == 1 and f.type(f.params[0]["t"]).rstrip().endswith("&&")):
+                continue
+            od = f.params[0]["d"]
+            taken = {}        # own field <- field of other
+            for ini in (f.d.get("inits") or []):
+                src = [x for x in walk(ini.get("init")) if x.get("k") == "Member" and x.get("b") is not None and x["b"].get("k") == "Ref" and x["b"].get("d") == od]
+                if src:
+                    taken[ini.get("member")] = src[0]["n"]
+            src_set = {}
+            for n in walk(f.body):
+                if n.get("k") in ("Assign", "OpCall") and n.get("op") == "=":
+                    lhs = n.get("lhs") if n.get("k") == "Assign" else n["a"][0]
+                    rhs = n.get("rhs") if n.get("k") == "Assign" else n["a"][1]
+                    if lhs.get("k") == "Member" and (lhs.get("b") is None or lhs["b"].get("k") == "This"):
+                        src = [x for x in walk(rhs) if x.get("k") == "Member" and x.get("b") is not None and x["b"].get("k") == "Ref" and x["b"].get("d") == od]
+                        if src:
+                            taken[lhs["n"]] = src[0]["n"]
+                    elif lhs.get("k") == "Member" and lhs.get("b") is not None and lhs["b"].get("k") == "Ref" and lhs["b"].get("d") == od:
+                        src_set[lhs["n"]] = rhs
+            if buf_fields:
+                need = req_fields + buf_fields
+                wrong = [x for x in need if taken.get(x) != x]
+                ck.ob("E14.buffers-outlive-requests", "%s/requests-move-with-buffers" % fkey(f), not wrong,
+                      ("request holders %s and message buffers %s must all be taken over from the same members of the source; not so: %s" % (
+                          req_fields, buf_fields, ", ".join("%s <- %s" % (x, taken.get(x, "(not moved)")) for x in wrong))) if wrong else
+                      "request holders %s and their message buffers %s are moved together" % (req_fields, buf_fields), f.file, f.line)
+            if flag is not None:
+                v = src_set.get(flag)
+                ok = taken.get(flag) == flag and v is not None and v.get("k") == "Bool" and bool(v.get("v"))
+                ck.ob("E14.ticket-protocol", "%s/marks-source-finished" % fkey(f), ok,
+                      "the new ticket inherits %s and the moved-from ticket is marked finished (its destructor must not assert, nobody waits twice)" % flag if ok else
+                      "move operation must copy %s from the source and then set other.%s = true (found: own %s <- %s, other.%s = %s)" % (
+                          flag, flag, flag, taken.get(flag), flag, render(v) if v is not None else "not set"), f.file, f.line)
         # ---- inline buffers and move operations ---------------------------------------------------------
         for f in fns:
             if not ((f.d.get("ctor") or f.name == "operator=") and len(f.params) == 1 and f.type(f.params[0]["t"]).rstrip().endswith("&&")):
@@ -1078,6 +1134,44 @@ def check_gate(ck, facts, partial=False):
                   "%sSynchVectorTicket(vector, comm, %s, %s)%s" % ("from_1_to_0(vector); " if "sync_1" in name else "", ranks_f, mirrors_f, "" if name.endswith("_async") else "; wait()"), f.file, f.line)
 
 
+def check_reductions(ck, facts, partial=False):
+    """blocking Gate reductions wait on the async ticket of the same operation; Global::Vector::{max,min}[_abs]_element[_async]
+    reduce the local value of the same name with the gate operation of the same direction"""
+    for fn in facts.functions:
+        if fn.tk == "pattern":
+            continue
+        cls = strip_targs(fn.cls)
+        if cls == "FEAT::Global::Gate" and fn.name in ("sum", "min", "max", "norm2"):
+            rets = [n for n in walk(fn.body) if n.get("k") == "Return"]
+            e = rets[0].get("e") if len(rets) == 1 else None
+            ok = e is not None and e.get("k") == "MCall" and callee_name(e) == "wait" and (e.get("obj") or {}).get("k") == "MCall" and callee_name(e["obj"]) == fn.name + "_async" \
+                and e["obj"].get("a") and e["obj"]["a"][0].get("k") == "Ref" and e["obj"]["a"][0].get("d") == fn.params[0]["d"]
+            if ok and fn.name == "sum" and len(e["obj"]["a"]) > 1:
+                sq = e["obj"]["a"][1]
+                ok = sq.get("k") == "Bool" and not sq.get("v")
+            ck.ob("E4.gate-reduction-op", "%s::%s" % (ckey(fn.cls), fn.name), ok, "returns %s" % render(e) if e is not None else "no single return", fn.file, fn.line)
+        m = re.match(r"(max|min)(_abs)?_element(_async)?$", fn.name or "")
+        if cls == "FEAT::Global::Vector" and m:
+            want_gate = m.group(1) + ("_async" if m.group(3) else "")
+            want_local = "%s%s_element" % (m.group(1), m.group(2) or "")
+            gcalls = [c for c in calls_of(fn) if c.get("k") == "MCall" and strip_targs(c.get("ccls", "")) == "FEAT::Global::Gate"]
+            problems = []
+            if len(gcalls) != 1:
+                problems.append("%d gate calls (expected one)" % len(gcalls))
+            for c in gcalls:
+                if callee_name(c) != want_gate:
+                    problems.append("reduces with Gate::%s, expected Gate::%s" % (callee_name(c), want_gate))
+                a = c["a"][0] if c.get("a") else None
+                if not (a is not None and a.get("k") == "MCall" and callee_name(a) == want_local and this_field(a.get("obj")) is not None):
+                    problems.append("reduces %s, expected the local %s() of the own vector" % (render(a), want_local))
+            # the gate-less fallback returns the same local quantity
+            for r_ in [n for n in walk(fn.body) if n.get("k") == "Return"]:
+                e = r_.get("e")
+                if e is not None and e.get("k") == "MCall" and e not in gcalls and this_field(e.get("obj")) is not None and callee_name(e) != want_local:
+                    problems.append("fallback returns local %s(), expected %s()" % (callee_name(e), want_local))
+            ck.ob("E4.gate-reduction-op", "%s::%s" % (ckey(fn.cls), fn.name), not problems, "; ".join(problems) or "-> Gate::%s(local %s())" % (want_gate, want_local), fn.file, fn.line)
+
+
 VEC_DELEGATE = {
     # Global::Vector method -> (gate method, arguments: 'v' = own local vector, 'x' = x.local(), True = literal true)
     "sync_0": ("sync_0", ("v",)), "sync_1": ("sync_1", ("v",)), "from_1_to_0": ("from_1_to_0", ("v",)),
@@ -1209,15 +1303,17 @@ def load(ck, alt=False):
 
 def declare_rules(ck):
     ck.rule("E0.instantiate-mpi", "Gate, SynchVectorTicket, SynchScalarTicket, SynchMatrix, Muxer, Splitter, Global::{Vector,Matrix,Filter,Transfer}, VectorMirror, MatrixMirror instantiate "
-            "with -DFEAT_HAVE_MPI for DenseVector / DenseVectorBlocked<2> / CSR / BCSR<2,2>: a member that does not type-check cannot synchronise anything (any caller of that member)", 24)
+            "with -DFEAT_HAVE_MPI for DenseVector / DenseVectorBlocked<2> / CSR / BCSR<2,2> (82 curated members, each one instance whether or not it type-checks): a member that does not type-check cannot synchronise anything (any caller of that member)", 82)
     ck.rule("E14.requests-completed", "typestate idle/posted of every request holder (RequestVector / Request member or local) over the CFG: requests posted by irecv/isend/iallreduce are "
             "completed by wait_all / wait / a wait_any loop left only through its false edge on every path before the function returns (constructors of ticket classes hand them "
             "to wait()); a holder is never re-posted, cleared or resized while requests of another post site may be pending. Broken => buffers are read/overwritten while MPI still "
             "owns them, for every run with at least one neighbour", 14)
     ck.rule("E14.buffers-outlive-requests", "the buffer of every posted request lives at least as long as the request: members of the ticket / synch object, or locals of a function that "
-            "completes the request before returning; a request posted on the address of a by-value member is not transferred by a move operation while pending", 26)
+            "completes the request before returning; a request posted on the address of a by-value member is not transferred by a move operation while pending; "
+            "move operations of a ticket take over every request holder together with every message buffer of the source", 30)
     ck.rule("E14.ticket-protocol", "ticket classes: wait() completes every request holder the constructor posted into on every path and then sets the completion flag; the destructor "
-            "asserts that flag (or waits). Broken => e.g. send requests never completed: buffers freed while messages are in flight", 11)
+            "asserts that flag (or waits); move operations inherit the flag and mark the moved-from ticket finished. Broken => e.g. send requests never completed: "
+            "buffers freed while messages are in flight; a moved-from ticket aborts in its destructor", 17)
     ck.rule("E14.neighbour-coherence", "inside one iteration of a neighbour loop every subscript of a per-neighbour array (ranks, mirrors, send/receive buffers, request slots, dimension "
             "arrays) is the iteration's neighbour index; the message length is taken from the buffer that is sent/received; a send buffer is filled by a mirror gather into the "
             "same buffer before isend; requests are appended unconditionally so that slot == neighbour index. Broken => data of neighbour j is unpacked with the mirror of "
@@ -1240,7 +1336,9 @@ def declare_rules(ck):
             "last, on every path. Broken => dot products / type-1 syncs weight shared dofs by the multiplicity instead of its reciprocal", 2)
     ck.rule("E7.gate-dot", "Gate::dot returns sum(freqs.triple_dot(x, y)) (frequencies exactly once) whenever the process may have neighbours, the unweighted dot only for a single "
             "process / no neighbours; dot_async = sum_async(freqs.triple_dot(x, y), sqrt)", 4)
-    ck.rule("E4.gate-reduction-op", "Gate::{sum,min,max,norm2}_async build SynchScalarTicket(x | x*x, comm, op_sum | op_min | op_max | op_sum, sqrt = param | false | false | true)", 8)
+    ck.rule("E4.gate-reduction-op", "Gate::{sum,min,max,norm2}_async build SynchScalarTicket(x | x*x, comm, op_sum | op_min | op_max | op_sum, sqrt = param | false | false | true); "
+            "the blocking forms wait on the ticket of the same operation; Global::Vector::{max,min}[_abs]_element[_async] reduce the local quantity of the same name with "
+            "Gate::max / Gate::min of the same direction (a max reduced with min is wrong on every run with two different local extrema)", 32)
     ck.rule("E7.gate-discipline", "Gate::from_1_to_0 = vector (*) freqs once; sync_0[_async] exchanges without scaling, sync_1[_async] scales by the frequencies exactly once before the "
             "exchange; the ticket gets (vector, comm, ranks, mirrors) of the gate and the blocking forms wait on every path", 10)
     ck.rule("E4.vector-delegate", "Global::Vector::{sync_0, sync_1, from_1_to_0, *_async, dot, dot_async, norm2_async} delegate to the gate method of the same meaning with "
@@ -1255,6 +1353,7 @@ def analyse(ck, facts, label):
     check_global_matrix(ck, facts)
     check_gate(ck, facts)
     check_global_vector(ck, facts)
+    check_reductions(ck, facts)
     check_muxer(ck, facts)
 
 
@@ -1282,6 +1381,7 @@ def run(tier):
                 check_global_matrix(ck, f3)
                 check_gate(ck, f3, partial=True)
                 check_global_vector(ck, f3)
+                check_reductions(ck, f3)
     ck.assume("Dist::RequestVector::wait_any returns false only when no active request is left; wait_all / Request::wait complete their requests (kernel/util/dist.hpp, MPI 3.1 §3.7.5)")
     ck.assume("LAFEM::DenseVector / MatrixMirrorBuffer keep their element arrays on the heap, so moving the containing std::vector does not move message buffers")
     ck.assume("member calls that modify their receiver are written in statement position (house style); accessor calls whose value is used are not effects")
